@@ -1,3 +1,100 @@
-From RBQL Require Import Base.
-Example C03_placeholder : True. Proof. exact I. Qed.
-Print Assumptions C03_placeholder.
+(* Props/C03.v — Aggregates / GROUP BY: one exact result row per group, in key order. *)
+From RBQL Require Import Base Value Expr Writers Join Agg Agg_Proofs Sort_Proofs Engine Spec AggEngine_Proofs.
+From Coq Require Import QArith Permutation Sorted.
+
+(* an aggregate query whose evaluations succeed emits agg_rows - one row per distinct GROUP BY key among the
+   records passing WHERE (none if nothing passes), in ascending key order, each column's final value for that key -
+   truncated by TOP/LIMIT; every record is pulled once (any expression semantics) *)
+Theorem C03_run :
+  forall (expr : Type) (eval : env -> expr -> res val) (q : query expr) hdr A B jm inputs rows,
+    is_agg q = true -> (exists items, q_kind q = QSelect items) ->
+    q_order q = None -> q_distinct q = DNo -> static_check q = None ->
+    join_map_of expr q B = Some jm ->
+    agg_inputs expr eval q jm 0 A = Ok inputs ->
+    agg_rows expr q inputs = Ok rows ->
+    let o := run eval yes q hdr A B in
+    o_error o = None /\ written (o_chain o) = trunc (q_top q) rows /\ o_pulls o = length A.
+Proof. exact run_agg. Qed.
+Print Assumptions C03_run.
+
+(* streaming = batch: feeding all columns tuple by tuple is feeding each column with its own values ... *)
+Theorem C03_columnwise : forall inputs cs cs', cols_feed cs inputs = Ok cs' ->
+  length cs' = length cs /\
+  forall i c, nth_error cs i = Some c -> exists c', nth_error cs' i = Some c' /\ col_feed c (column i inputs) = Ok c'.
+Proof. exact cols_feed_columnwise. Qed.
+Print Assumptions C03_columnwise.
+
+(* ... and the per-key dictionary of an aggregate column holds, for every key, the fold of the aggregate's step over
+   that group's values IN INPUT ORDER; the values are converted by one NumHandler shared by the whole column *)
+Theorem C03_streaming_is_batch : forall ak kvs c c',
+  c_kind c = CAgg ak -> col_feed c kvs = Ok c' ->
+  exists avs, eff_vals ak (c_numh c) (map snd kvs) = Ok (avs, c_numh c') /\ c_kind c' = CAgg ak
+    /\ forall k, steps ak (stats_get (c_stats c) k) (group_of k (map fst kvs) avs) = Ok (stats_get (c_stats c') k).
+Proof. exact col_feed_agg. Qed.
+Print Assumptions C03_streaming_is_batch.
+
+(* the folds are the mathematical aggregates (integer arguments) *)
+Theorem C03_count : forall v vs, steps KCount None (v :: vs) = Ok (Some (SCount (length (v :: vs)))).
+Proof. exact count_is_length. Qed.
+Print Assumptions C03_count.
+Theorem C03_sum : forall z zs, steps KSum None (ints (z :: zs)) = Ok (Some (SVal (VA (AInt (fold_left Z.add (z :: zs) 0%Z))))).
+Proof. exact sum_is_sum. Qed.
+Print Assumptions C03_sum.
+Theorem C03_min : forall z zs, steps KMin None (ints (z :: zs)) = Ok (Some (SVal (VA (AInt (fold_left Z.min zs z))))).
+Proof. exact min_is_min. Qed.
+Print Assumptions C03_min.
+Theorem C03_max : forall z zs, steps KMax None (ints (z :: zs)) = Ok (Some (SVal (VA (AInt (fold_left Z.max zs z))))).
+Proof. exact max_is_max. Qed.
+Print Assumptions C03_max.
+Theorem C03_array_agg : forall v vs, steps KArray None (v :: vs) = Ok (Some (SList (v :: vs))).
+Proof. exact array_agg_is_the_list. Qed.
+Print Assumptions C03_array_agg.
+Theorem C03_any_value : forall v vs, steps KAny None (v :: vs) = Ok (Some (SVal (VA v))).
+Proof. exact any_value_is_first. Qed.
+Print Assumptions C03_any_value.
+Theorem C03_avg : forall z zs,
+  exists s, steps KAvg None (ints (z :: zs)) = Ok (Some s)
+            /\ agg_final KAvg s = Ok (VA (AFlt (Qred (inject_Z (fold_left Z.add (z :: zs) 0%Z) / inject_Z (Z.of_nat (length (z :: zs))))))).
+Proof. exact avg_is_mean. Qed.
+Print Assumptions C03_avg.
+(* VARIANCE's formula sumsq/n - (sum/n)^2 is the population variance (1/n) * sum (x - mean)^2 (over Q) *)
+Theorem C03_variance_population : forall (l : list Q), l <> [] ->
+  let n := inject_Z (Z.of_nat (length l)) in
+  let mean := qsum l / n in
+  qsum (map (fun x => x * x) l) / n - (qsum l / n) * (qsum l / n)
+  == qsum (map (fun x => (x - mean) * (x - mean)) l) / n.
+Proof. exact variance_population. Qed.
+Print Assumptions C03_variance_population.
+
+(* a non-aggregate column keeps the group's first value; a different later value fails the query at that record *)
+Theorem C03_const_column : forall c k v old,
+  c_kind c = CConst -> stats_get (c_stats c) k = Some (SVal old) -> val_eqb old v = false ->
+  col_increment c k v = Err (XRuntime 1).
+Proof. exact const_column_fails. Qed.
+Print Assumptions C03_const_column.
+
+(* exactly one row per distinct key, keys in ascending order (integer keys / string keys) *)
+Theorem C03_one_row_per_group : forall cs ks rows,
+  final_rows cs (sort_keys ks) = Ok rows -> length rows = length ks.
+Proof. exact one_row_per_group. Qed.
+Print Assumptions C03_one_row_per_group.
+Theorem C03_keys_ascending_int : forall ks, Forall (fun k => int_key k = true) ks ->
+  StronglySorted (fun a b => key_leb a b = true) (sort_keys ks) /\ Permutation (sort_keys ks) ks.
+Proof. intros ks H. split; [exact (sort_keys_sorted IntKey int_key_total int_key_trans ks H) | apply sort_keys_perm]. Qed.
+Print Assumptions C03_keys_ascending_int.
+Theorem C03_keys_ascending_str : forall ks, Forall (fun k => str_key k = true) ks ->
+  StronglySorted (fun a b => key_leb a b = true) (sort_keys ks) /\ Permutation (sort_keys ks) ks.
+Proof. intros ks H. split; [exact (sort_keys_sorted StrKey str_key_total str_key_trans ks H) | apply sort_keys_perm]. Qed.
+Print Assumptions C03_keys_ascending_str.
+
+(* non-vacuity: two groups, numeric strings converted, AVG as an exact rational *)
+Definition ex_inputs : list (key * list val) :=
+  [([AStr [107%N]], [VA (AStr [107%N]); VA (AStr [50%N])]);
+   ([AStr [97%N]],  [VA (AStr [97%N]);  VA (AStr [55%N])]);
+   ([AStr [107%N]], [VA (AStr [107%N]); VA (AStr [51%N])])].
+Example C03_nonvacuous :
+  (do cs <- cols_feed [col_init CConst; col_init (CAgg KAvg)] ex_inputs;
+   final_rows cs (sort_keys (all_keys ex_inputs)))
+  = Ok [[VA (AStr [97%N]); VA (AFlt (7 # 1))]; [VA (AStr [107%N]); VA (AFlt (5 # 2))]].
+Proof. vm_compute. reflexivity. Qed.
+Print Assumptions C03_nonvacuous.
